@@ -38,6 +38,17 @@ def replay_file(prop, path):
     return 0
 
 
+def last_json(text):
+    """last line of harness output that is a JSON object (the library prints debug text to stdout in places)"""
+    for line in reversed(text.strip().split("\n")):
+        if line.startswith("{"):
+            try:
+                return json.loads(line)
+            except json.JSONDecodeError:
+                continue
+    raise ToolError("no JSON result in harness output")
+
+
 def generic_outs(res):
     if "outs" in res:
         return res["outs"]
@@ -805,3 +816,131 @@ def check_C12(rep, tier):
     rep.assumptions += ["sha256 and the DER/PEM codecs are trusted; the standard SubjectPublicKeyInfo forms are built from fixed templates "
                         "(RFC 8410 ed25519 without parameters, RFC 5480 P-256 with the curve OID, RFC 3279 RSA with NULL)",
                         "key material limited to the committed fixture keys"]
+
+
+# ----------------------------------------------------------------------------- C16 / C17 / C19 (Wire.tla)
+def _wire(rep, tier, prop, kinds, judge):
+    sh = Sharder(prop)
+    meta = {}
+
+    def on_scn(s):
+        if s["kind"] not in kinds:
+            return
+        i = sh.add({k: s[k] for k in s if k not in ("out", "version")})
+        meta[i] = s
+        if i % 1777 == 9:
+            rep.sample({k: s[k] for k in s if k != "m"})
+
+    st = run_tlc("MC_Wire", f"MC_Wire_{tier}.cfg", prop.lower(), on_scn=on_scn)
+    require_clean(st, "MC_Wire")
+    rep.add_tlc(st, "MC_Wire")
+    rep.vacuity(["AReadKind", "AReadSrc", "AReadWith", "AReadDst", "AReadFrom", "ASerialize", "ARespell", "AParse", "AReserialize", "ARecognise"])
+    rep.cov["exhaustive"] = True
+    sh.run()
+    n = 0
+    for r in sh.results():
+        n += 1
+        s = meta[r["i"]]
+        if "harness_panic" in r:
+            raise ToolError("harness panic: " + r["harness_panic"])
+        judge(s, r, lambda i=r["i"], r=r: {"scn": sh.scenario(i), "spec": {"out": meta[i]["out"], "version": meta[i].get("version")}, "actual": r})
+    rep.cov["evaluations"] = n
+    rep.cov["traces_validated_against_impl"] = n
+    sh.cleanup()
+
+
+def check_C16(rep, tier):
+    rep.cov["rule"] = ("TLC runs the rule-grammar parser machine of Wire.tla on every valid rule form (operands that spell keywords "
+                       "included) and every single-token deletion / insertion / replacement, and enumerates shape descriptors of links "
+                       "(environment absent / empty / 1 / 2 entries, 0..2 extra byproducts, return value absent / 0 / negative / max, "
+                       "empty collections, string classes, 0 / 2 signatures) and layouts (0..2 steps, every rule form, thresholds "
+                       "0 / 1 / u32::MAX, key types, inspections, expiry).  Each document is built with the builders and must satisfy "
+                       "parse(serialise(v)) = v and serialise(parse(serialise(v))) = serialise(v), compact and pretty, as signed block, "
+                       "as wrapper and as bare metadata; each accepted token sequence must parse to the grammar's value and serialise "
+                       "back to the same tokens.  Non-trivial = documents with optional parts / accepted MATCH forms / mutated sequences.")
+
+    def judge(s, r, mk):
+        if s["kind"] == "rule":
+            if r["out"] == "ok":
+                rep.nontrivial(r["i"])
+                if s["out"] == "ok" and not r.get("value_ok"):
+                    rep.mismatch({"kind": "rule_value_altered", "got": r.get("got")}, mk)
+                if not r.get("rt_ok"):
+                    rep.mismatch({"kind": "rule_not_round_tripping"}, mk)
+            if r["out"] != s["out"]:
+                if s["out"] == "ok":
+                    rep.mismatch({"kind": "valid_rule_rejected"}, mk)
+                else:
+                    rep.cov["drift"] += 1
+        else:
+            rep.nontrivial(r["i"])
+            if not r.get("value_ok") or not r.get("text_ok"):
+                reserved = s["desc"].get("reserved", "none")
+                if reserved != "none":
+                    rep.mismatch({"kind": "round_trip_extra_byproduct_with_reserved_name", "reserved": reserved}, mk)
+                else:
+                    rep.mismatch({"kind": "round_trip", "value_ok": r.get("value_ok"), "text_ok": r.get("text_ok"), "detail": (r.get("detail") or "")[:80]}, mk)
+
+    _wire(rep, tier, "C16", ("rule", "link", "layout"), judge)
+    rep.assumptions += ["values are those obtainable from the builders (expiry at whole seconds); serde_json is the JSON reader/writer",
+                        "byproducts extra fields use names distinct from stdout / stderr / return-value (see DESIGN.md, reading question)"]
+
+
+def check_C17(rep, tier):
+    rep.cov["rule"] = ("Every document of the Wire.tla instance (rule token sequences incl. rejected ones, link / layout shape "
+                       "descriptors as signed block, wrapper and bare metadata, predicate and statement field subsets) is parsed "
+                       "through 4 channels (str, byte slice, streaming reader, parsed JSON tree) x 3 spellings (as written, extra "
+                       "whitespace, every character \\uXXXX-escaped with members reversed); all 12 must agree with (str, as written) "
+                       "on accept / reject and on the value.  Non-trivial = accepted documents (value comparison).")
+
+    def judge(s, r, mk):
+        if r.get("out") == "ok":
+            rep.nontrivial(r["i"])
+        if not r.get("channels_agree"):
+            d = r.get("detail") or ""
+            rep.mismatch({"kind": "channel_dependent", "doc": s["kind"], "detail": d[:60]}, mk)
+
+    _wire(rep, tier, "C17", ("rule", "link", "layout", "pred", "stmt"), judge)
+    rep.cov["evaluations"] *= 12
+    rep.assumptions += ["serde_json's four entry points are the channels; escape spelling produced by the harness writer"]
+
+
+def check_C19(rep, tier):
+    rep.cov["rule"] = ("TLC proves the closed schemas of Wire.tla pairwise disjoint over every subset of the field universes and "
+                       "enumerates every predicate field subset x kind of 'materials' x timestamp form, every statement field subset, "
+                       "and declared predicate type x contained predicate format.  Each document is built and parsed with the version-"
+                       "detecting parsers: an accepted document must be recognised as exactly the schema's version (judge_from_value "
+                       "agreeing), must round-trip through its canonical bytes and through JSON, and a v0.1 statement whose declared "
+                       "type names another format must be rejected; statements built from link metadata must carry every field over. "
+                       "Non-trivial = documents some schema accepts, and type / format mismatches.")
+
+    def judge(s, r, mk):
+        exp_ver = (s.get("version") or [None])[0] if s.get("version") else None
+        d = s["desc"]
+        mismatch_case = s["kind"] == "stmt" and "predicate" in d["fields"] and d["declared"] != d["contained"]
+        if r["out"] == "ok" or s["out"] == "ok" or mismatch_case:
+            rep.nontrivial(r["i"])
+        if r["out"] == "ok":
+            if mismatch_case:
+                rep.mismatch({"kind": "declared_type_differs_from_predicate", "declared": d["declared"], "contained": d["contained"]}, mk)
+            elif s["out"] == "ok" and r.get("version") != exp_ver:
+                rep.mismatch({"kind": "wrong_version", "got": r.get("version"), "want": exp_ver}, mk)
+            if not r.get("judge_ok"):
+                rep.mismatch({"kind": "version_judgement_disagrees"}, mk)
+            if not (r.get("rt_ok") and r.get("rt2_ok")):
+                rep.mismatch({"kind": "round_trip", "detail": (r.get("detail") or "")[:80]}, mk)
+            if s["out"] != "ok" and not mismatch_case:
+                rep.cov["drift"] += 1
+        elif s["out"] == "ok":
+            rep.cov["drift"] += 1
+            rep.cov.setdefault("rejected_though_schema_accepts", 0)
+            rep.cov["rejected_though_schema_accepts"] += 1
+
+    _wire(rep, tier, "C19", ("pred", "stmt"), judge)
+    res = last_json(run_itv(["record", "C19meta", "240" if tier == "quick" else "2400"]))
+    rep.cov["from_meta_checks"] = res["n"]
+    rep.cov["evaluations"] += res["n"]
+    for b in res["bad"]:
+        rep.mismatch({"kind": "from_meta_alters_field", "which": b.get("kind"), "field": b.get("field")}, {"case": b})
+    rep.assumptions += ["C19 constrains accepted documents; a document the schema accepts but the parser rejects is recorded as drift",
+                        "field universes are the top-level members of each format; nested optional members use fixed representative values"]
